@@ -555,6 +555,15 @@ func c02Negative() []refTree {
 					Plans: []refPlan{{Position: pos.name, Kind: pos.kind, Form: "whole-file", Shape: "direct", Ref: "a.json", Fails: why}}})
 			}
 		}
+		// the target is an object one of whose members is null where an object must stand: the same object directly under
+		// components fails the load, reached through a reference it must not be swallowed
+		if pos.kind == "schema" {
+			root = refRootSkeleton()
+			root["x-defs"] = gen.S{"Bad": gen.S{"type": "object", "properties": gen.S{"a": nil}}}
+			pos.plant(root, gen.S{"$ref": "#/x-defs/Bad"})
+			out = append(out, refTree{Root: "w/root.json", Files: map[string]string{"w/root.json": mustJSON(root)},
+				Plans: []refPlan{{Position: pos.name, Kind: pos.kind, Form: "internal", Shape: "direct", Ref: "#/x-defs/Bad", Fails: "target-with-a-null-member"}}})
+		}
 		// array indexes that are no JSON-pointer indexes (leading zeros, a sign, blanks) designate nothing
 		if pos.kind == "schema" {
 			for _, badIdx := range []string{"01", "+1", "1 ", "00", "1.0", "-0"} {
